@@ -54,7 +54,8 @@ CHECKS = {
                 'OneResponsePerRequestInOrder, RightOrigin and, under fairness, AllAnswered. tlc -simulate behaviours (free packing/timing '
                 'and polite clients) are executed as environment schedules against the REAL handler in four roles (forward proxy, web '
                 'server with two route plugins, reverse proxy with two upstream routes, reverse proxy mixing an upstream route with a '
-                'self-answered route); TLC (TracePersist) compares the settled outcome with Expected(script).',
+                'self-answered route), every fourth history also in threaded mode; TLC (TracePersist) compares the settled outcome with '
+                'Expected(script).',
         'design_ref': 'DESIGN.md section 6, C04',
         'note': 'Trusted: TLC, SimNet. Three design-level defects are listed as known findings (requests sharing a segment; forward proxy '
                 'follow-up to another origin; reverse proxy with overlapping requests) and mask other violations inside exactly those classes.',
@@ -68,7 +69,9 @@ CHECKS = {
                 'the REAL LocalFdExecutor with scripted works raising where the behaviour says; TLC (TraceExecutor) validates the abstract '
                 'state after every step. (ii) the REAL handler stack: adversarial connections (C06 input grammar, aborts at every point, '
                 'every socket error at every call, failing upstreams; forward/tunnel/web/reverse) share the worker with a canary and are '
-                'followed by another connection; TLC (TraceIsolation) compares with the canary alone.',
+                'followed by another connection; TLC (TraceIsolation) compares with the canary alone. The model also covers descriptors '
+                'that vanish from the selector, event-mask changes and a work that replaces its descriptor (NoStaleRegistrations); every '
+                'adversary job runs under a watchdog, so a worker that never returns is a reported stall, not a hung check.',
         'design_ref': 'DESIGN.md section 6, C05',
         'note': 'Trusted: TLC, SimNet, reduction argument. Blocking TLS handshakes (interception) are not exercised (F18, DESIGN.md).',
         'technique': 'TLA+ design model (Executor, fault enumeration over call sites) + TLC-generated fault schedules executed on the real '
@@ -82,7 +85,9 @@ CHECKS = {
                 'valid requests, truncations, byte mutations and random bytes in forward / tunnel / web roles under several '
                 'segmentations run through the REAL handler; TLC (TraceInput) parses everything the client received: a sequence of '
                 'well-formed responses, nothing partial, Connection: close => last and followed by end-of-stream, a clean complete '
-                'request never left without reaction, worker alive.',
+                'request never left without reaction, worker alive. Also behind --enable-proxy-protocol (valid, damaged, over-long, '
+                'version 2, missing PROXY lines), token-spliced framing fields, and under a watchdog: an input the worker never returns '
+                'from is a violation.',
         'design_ref': 'DESIGN.md section 6, C06',
         'note': 'Trusted: TLC, SimNet, CPython zlib. Inputs are sampled from the grammar (hundreds quick, thousands thorough), not exhaustive.',
         'technique': 'TLA+ reference parser as the independent HTTP parser (TraceCodec / TraceInput) deciding recorded builder outputs and '
@@ -105,7 +110,8 @@ CHECKS = {
                 'Parse. Every message of a grammar-generated corpus is fed to the REAL HttpParser / ChunkParser in one piece, in every '
                 '2-piece and (short messages) every 3-piece segmentation, one byte per piece and random multi-cuts; TLC (TraceParse) '
                 'judges each recorded segmentation: completion reported exactly at the piece holding the last byte, final state equal '
-                'to the one-piece state, remainder equal to the reference remainder.',
+                'to the one-piece state, remainder equal to the reference remainder. Requests are also fed behind a PROXY protocol v1 '
+                'line (--enable-proxy-protocol).',
         'design_ref': 'DESIGN.md section 6, C03',
         'note': 'Trusted: TLC and the JSON bridge. Bounded: messages up to ~150 bytes, all cuts into <= 3 pieces for messages <= 60 '
                 '(quick) / 90 (thorough) bytes, sampled beyond; close-delimited framing excluded by the property.',
@@ -132,7 +138,8 @@ CHECKS = {
                 'socket error injected at every call), keep-alive conversations and grammar-mutated inputs - run on the REAL handler '
                 'stack; the connection is then ended (client leaves, idle timeout, reaper), garbage collected, a census taken, and the '
                 'history repeated three times on the same worker. TLC (TraceRes) steps the descriptor-level event log through the '
-                'discipline and judges census and growth.',
+                'discipline and judges census and growth. Also: reverse-proxy conversations that switch upstreams, non-UTF-8 request / '
+                'response fields, and threaded-mode shutdowns whose final blocking flush meets a socket error.',
         'design_ref': 'DESIGN.md section 6, C10',
         'note': 'Trusted: TLC, SimNet descriptor numbering / finalisation / selector semantics. Remote executors are not exercised. One '
                 'known finding (reverse proxy replaces its upstream without closing it).',
@@ -275,7 +282,7 @@ CHECKS = {
                 'tunnel on in-memory sockets, virtual clock patched over time.time, client wire of CAP units, Reap = the executor\'s own '
                 '_cleanup_inactive); TLC (TraceIdle) requires after every step that the connection is closed exactly when the model says: '
                 'never reaped with client-side traffic within the timeout or with pending output, always reaped by the first sweep after '
-                'the timeout has elapsed.',
+                'the timeout has elapsed. Arrivals the TLS layer cannot deliver yet (the read answers want-read) count as client traffic.',
         'design_ref': 'DESIGN.md section 6, C20',
         'note': 'Trusted: TLC, SimNet, the virtual clock. The tick arithmetic of _run_forever that decides when sweeps happen and the '
                 'threaded-mode loop are not exercised (they share is_inactive / last_activity with this path).',
